@@ -791,23 +791,26 @@ class Mailbox:
                 #
                 if not self.executing_tasks:
                     async with self.mailbox.lock_folder():
-                        changed = await self.check_new_msgs_and_flags()
+                        await self.check_new_msgs_and_flags()
 
                     # Need to update this command's msg_set_as_set before we
                     # add it to the list of executing commands (the list is
                     # empty so we only need to update this one command)
                     #
-                    if changed:
-                        try:
-                            imap_cmd.msg_set_as_set = (
-                                self.msg_set_to_msg_seq_set(
-                                    imap_cmd.msg_set, imap_cmd.uid_command
-                                )
-                            )
-                        except Bad as exc:
-                            imap_cmd.resolve_error = exc
-                            imap_cmd.ready.set()
-                            continue
+                    # NOTE: Not only when the resync found new messages. While
+                    #       this command waited for its turn an EXPUNGE may
+                    #       have run, and the set we computed when we took
+                    #       the command off the queue would then refer to
+                    #       the wrong messages.
+                    #
+                    try:
+                        imap_cmd.msg_set_as_set = self.msg_set_to_msg_seq_set(
+                            imap_cmd.msg_set, imap_cmd.uid_command
+                        )
+                    except Bad as exc:
+                        imap_cmd.resolve_error = exc
+                        imap_cmd.ready.set()
+                        continue
 
                 self.executing_tasks.append(imap_cmd)
                 imap_cmd.ready.set()
